@@ -297,3 +297,6 @@ def run(chk, repo):
                     offenders.append(f"{f_.qual}: {unparse(n)[:70]}")
     chk.ob('C18.j', 'no direct write to a pool record set outside VariantPeptidePool', 'moPepGen/aa/VariantPeptidePool.py:1', not offenders,
            f"pool record sets written directly: {offenders}: peptides present in two inputs keep only the header entries of the first", key='aa::pool-owner')
+    from rules.shared import kwname
+    chk.clauses.append('C18.kw (shared R-THREAD) parameters handed on as keyword arguments keep their name: no `a=b` between two parameters of one function')
+    kwname(chk, repo, 'C18.kw', ['aa.PeptidePoolSplitter', 'aa.PeptidePoolSummarizer', 'aa.VariantPeptideLabel', 'aa.VariantPeptideIdentifier', 'cli.split_fasta', 'cli.merge_fasta', 'cli.encode_fasta', 'cli.summarize_fasta'], floor=0)
